@@ -8,7 +8,7 @@ import (
 )
 
 const c01Rule = "generated schedule (which parked goroutine runs next at every call-out: backend Read/Write, builder, Failover debug/warn/error logs, Failover stats; when each Get starts; clock jumps; external ExpireAll/Delete) " +
-	"over a generated configuration (3 frontend/backend variants x SyncUpdate x SyncRead x FailHard x MaxStaleness x FailedUpdateTTL x UpdateTTL x logger x stats), 1-3 keys each initially absent/fresh/stale-recent/stale-old, 2-6 Gets with caller TTL, SkipRead and scripted builder outcomes; " +
+	"over a generated configuration (5 frontend/backend variants (Failover over ShardedMap/SyncMap, FailoverOf[string] over ShardedMapOf, FailoverOf[any] over ShardedMap/SyncMap) x SyncUpdate x SyncRead x FailHard x MaxStaleness x FailedUpdateTTL x UpdateTTL x logger x stats), 1-3 keys each initially absent/fresh/stale-recent/stale-old, 2-6 Gets with caller TTL, SkipRead and scripted builder outcomes; " +
 	"oracle: per-key in-flight counter inside the harness builder never exceeds 1; non-trivial = a Get of key k was started or resumed while a build of k was in flight, or >=2 builds of one key happened"
 
 // TestC01SingleBuild: Failover never runs two builds for the same key at the same time.
@@ -92,7 +92,7 @@ func (w *world) classify(sc *scenario) {
 }
 
 const c01SweepRule = "small-scope EXHAUSTIVE sweep at call-out granularity: 2 Gets on 1 key, every interleaving of their call-outs and of the second Get's arrival (resume/start choices only; no clock jumps, no external ops, no faults, logger and stats off) " +
-	"for every combination of 3 variants x SyncUpdate x SyncRead x FailHard x MaxStaleness {0,30s} x FailedUpdateTTL {default,-1} x initial state {absent, fresh, stale-recent, stale-old} x builder outcomes {ok,err}^2; oracle: C01 in-flight monitor + C02 provenance + C04 quiescence; " +
+	"for every combination of 5 variants x SyncUpdate x SyncRead x FailHard x MaxStaleness {0,30s} x FailedUpdateTTL {default,-1} x initial state {absent, fresh, stale-recent, stale-old} x builder outcomes {ok,err}^2; oracle: C01 in-flight monitor + C02 provenance + C04 quiescence + C05 single build under SyncRead; " +
 	"a case = one complete schedule; non-trivial = the second Get started before the first returned"
 
 type sweepCombo struct {
@@ -102,7 +102,7 @@ type sweepCombo struct {
 var sweepCombos = func() []sweepCombo {
 	var out []sweepCombo
 
-	for v := 0; v < 3; v++ {
+	for v := 0; v < nVariants; v++ {
 		for su := 0; su < 2; su++ {
 			for sr := 0; sr < 2; sr++ {
 				for fh := 0; fh < 2; fh++ {
@@ -216,6 +216,23 @@ func propSweep(c *Case) {
 		w.checkQuiescence(sc, complete)
 
 		c.Assert(complete, "step-budget", "schedule of two Gets did not finish within the step budget")
+
+		// C05 (build economy) in the same small scope: with SyncRead a successful build, or a failed
+		// one whose error is cached, is never followed by a second builder invocation.
+		if cfg.syncRead {
+			var builds []*buildRec
+
+			for _, b := range w.log.builds {
+				if b.getIdx >= 0 {
+					builds = append(builds, b)
+				}
+			}
+
+			if len(builds) > 0 && (builds[0].err == nil || cfg.failedUpdateTTL != -1) {
+				c.Assert(len(builds) == 1, "redundant-build", "SyncRead, two Gets on one key: %d builder invocations although the first one %s", len(builds),
+					map[bool]string{true: "succeeded", false: "failed and its error is cached"}[builds[0].err == nil])
+			}
+		}
 
 		if len(w.log.gets) == 2 && w.log.gets[1].startStep < w.log.gets[0].returnStep {
 			c.NonTrivial()
